@@ -276,7 +276,7 @@ func (e *Engine) Discharge(ob *Obligation) {
 	ob.SMTPath = file
 	ctx := context.Background()
 	// stage 1: z3-new alone, short
-	t1 := 3
+	t1 := 6
 	if e.Timeout < t1 {
 		t1 = e.Timeout
 	}
